@@ -42,6 +42,9 @@ def poly(expr, env=None):
                     out[k] = out.get(k, 0) + va * vb
             return {k: v for k, v in out.items() if v}
         raise NotPoly(f'operator {type(expr.op).__name__}')
+    if isinstance(expr, ast.Call) and isinstance(expr.func, ast.Name) and expr.func.id == 'len' and len(expr.args) == 1 and not expr.keywords \
+            and isinstance(expr.args[0], (ast.Name, ast.Attribute)) and norm(expr.args[0]) not in env:
+        return {(norm(expr),): 1}   # the length of a named value: an opaque symbol
     raise NotPoly(f'{type(expr).__name__}: {norm(expr)}')
 
 
